@@ -136,18 +136,25 @@ var c20CacheBroken bool
 
 func c20CacheRun(c *Ctx, G, T, gmp int, seed int64) {
 	args := []string{"G=" + strconv.Itoa(G), "T=" + strconv.Itoa(T), "gmp=" + strconv.Itoa(gmp), "seed=" + strconv.FormatInt(seed, 10)}
+	c20RunChild(c, "cache.run", args, "C20cachechild", fmt.Sprintf("VERIF_C20_CACHE=%d %d %d %d", G, T, gmp, seed))
+}
+
+// c20RunChild re-executes the harness binary with property id `child` and one extra environment variable, and
+// emits `<op> <args> => <the child's line>` or `crash:<first line of its stderr>` (a Go fatal error — concurrent
+// map access — cannot be recovered in-process) or `hang`.
+func c20RunChild(c *Ctx, op string, args []string, child, env string) {
 	exe, err := os.Executable()
 	if err != nil {
-		c.Emit("cache.run", args, "error:no-executable")
+		c.Emit(op, args, "error:no-executable")
 		return
 	}
-	cmd := exec.Command(exe, "C20cachechild")
-	cmd.Env = append(os.Environ(), fmt.Sprintf("VERIF_C20_CACHE=%d %d %d %d", G, T, gmp, seed))
+	cmd := exec.Command(exe, child)
+	cmd.Env = append(os.Environ(), env)
 	var stdout, stderr bytes.Buffer
 	cmd.Stdout, cmd.Stderr = &stdout, &stderr
 	done := make(chan error, 1)
 	if err := cmd.Start(); err != nil {
-		c.Emit("cache.run", args, "error:cannot-start-child")
+		c.Emit(op, args, "error:cannot-start-child")
 		return
 	}
 	go func() { done <- cmd.Wait() }()
@@ -156,7 +163,7 @@ func c20CacheRun(c *Ctx, G, T, gmp int, seed int64) {
 	case werr = <-done:
 	case <-time.After(5 * time.Minute):
 		cmd.Process.Kill()
-		c.Emit("cache.run", args, "hang")
+		c.Emit(op, args, "hang")
 		return
 	}
 	out := strings.TrimSpace(stdout.String())
@@ -172,10 +179,10 @@ func c20CacheRun(c *Ctx, G, T, gmp int, seed int64) {
 			first = first[:120]
 		}
 		c20CacheBroken = true
-		c.Emit("cache.run", args, "crash:"+strings.ReplaceAll(first, " ", "_"))
+		c.Emit(op, args, "crash:"+strings.ReplaceAll(first, " ", "_"))
 		return
 	}
-	c.Emit("cache.run", args, out)
+	c.Emit(op, args, out)
 }
 
 // c20RepoFile locates a source file of the repository the harness was compiled against.
@@ -235,6 +242,13 @@ func c20TypeinfoCache(c *Ctx) {
 				}
 			}
 		}
+	}
+	// a published field table is never written again: outside typeFields (which builds it) no statement of the
+	// package assigns to an element of `.nameIndex` / `.list`, reassigns them, or deletes from them
+	if why := c20TableWrites(); why != "" {
+		c20CacheBroken = true
+		c.Emit("typeinfo.cache", nil, "bad:"+why)
+		return
 	}
 	switch kind {
 	case "syncmap":
@@ -299,4 +313,55 @@ func c20TypeinfoCache(c *Ctx) {
 		c20CacheBroken = true
 	}
 	c.Emit("typeinfo.cache", nil, obs)
+}
+
+func c20TableWrites() string {
+	dir := filepath.Dir(c20RepoFile("nbt", "typeinfo.go"))
+	files, _ := filepath.Glob(filepath.Join(dir, "*.go"))
+	isTableField := func(e ast.Expr) bool {
+		sel, ok := e.(*ast.SelectorExpr)
+		return ok && (sel.Sel.Name == "nameIndex" || sel.Sel.Name == "list")
+	}
+	for _, f := range files {
+		if strings.HasSuffix(f, "_test.go") {
+			continue
+		}
+		af, err := parser.ParseFile(token.NewFileSet(), f, nil, 0)
+		if err != nil {
+			continue
+		}
+		for _, d := range af.Decls {
+			fd, ok := d.(*ast.FuncDecl)
+			if !ok || fd.Body == nil || fd.Name.Name == "typeFields" {
+				continue
+			}
+			why := ""
+			ast.Inspect(fd.Body, func(n ast.Node) bool {
+				switch x := n.(type) {
+				case *ast.AssignStmt:
+					for _, l := range x.Lhs {
+						if ix, ok := l.(*ast.IndexExpr); ok && isTableField(ix.X) {
+							why = fd.Name.Name + ":writes-" + ix.X.(*ast.SelectorExpr).Sel.Name
+						}
+						if isTableField(l) {
+							why = fd.Name.Name + ":reassigns-" + l.(*ast.SelectorExpr).Sel.Name
+						}
+					}
+				case *ast.IncDecStmt:
+					if ix, ok := x.X.(*ast.IndexExpr); ok && isTableField(ix.X) {
+						why = fd.Name.Name + ":writes-" + ix.X.(*ast.SelectorExpr).Sel.Name
+					}
+				case *ast.CallExpr:
+					if id, ok := x.Fun.(*ast.Ident); ok && id.Name == "delete" && len(x.Args) > 0 && isTableField(x.Args[0]) {
+						why = fd.Name.Name + ":deletes-from-" + x.Args[0].(*ast.SelectorExpr).Sel.Name
+					}
+				}
+				return why == ""
+			})
+			if why != "" {
+				return filepath.Base(f) + ":" + why
+			}
+		}
+	}
+	return ""
 }
